@@ -44,6 +44,8 @@ type cop struct {
 	closeErr bool // the connection's Close() returns an error
 	// S: the connection refuses to arm a read deadline during this call
 	dlErr bool
+	// T: the caller lets this much time pass before the call
+	pause time.Duration
 }
 
 type ccfg struct {
@@ -51,6 +53,9 @@ type ccfg struct {
 	host    []byte
 	ack     bool
 	timeout time.Duration // 0: none
+	// the shared key reaches the client through its exported field after New (as Hostname always does), not
+	// through ConnectionOptions
+	keyByField bool
 }
 
 func (c ccfg) model() string {
@@ -167,6 +172,10 @@ func runClientOps(cf ccfg, ops []cop) []copResult {
 		}
 	}
 	cl := client.New(client.ConnectionOptions{Factory: f, RequireAck: cf.ack, AuthInfo: client.AuthInfo{SharedKey: cf.key}})
+	if cf.keyByField {
+		cl = client.New(client.ConnectionOptions{Factory: f, RequireAck: cf.ack})
+		cl.AuthInfo.SharedKey = cf.key
+	}
 	cl.Hostname = string(cf.host)
 	cl.Timeout = cf.timeout
 	res := make([]copResult, 0, len(ops))
@@ -247,6 +256,7 @@ func runClientOps(cf ccfg, ops []cop) []copResult {
 				case "W":
 					err = cl.SendRaw(o.raw)
 				case "T":
+					time.Sleep(o.pause)
 					if cl.TransportPhase() {
 						ret = "true"
 					} else {
